@@ -8,6 +8,13 @@ TRUST = ("TLC; the reading of MCNP/TRIPOLI-4 semantics written down in DESIGN.md
          "(harness/vt4/shim.py) standing in for TatSu; the .t4 tokenizer and numeric SURF evaluator "
          "(harness/vt4/t4file.py); the concretiser that spells abstract decks as MCNP text")
 CHECKS = {
+ 'C17': dict(cat='fault_enumeration', ref='6/C17',
+   text=("Faults.tla enumerates every fault record (class, site, variant) from its tables of what MCNP admits (entry counts of "
+         "all surface mnemonics and macrobodies, facets per body, FILL-array length, IMP cards, material signs, --lattice "
+         "syntax, m=-1 on TR card / inline FILL / inline TRCL, lattice without usable --lattice); each is injected into the "
+         "valid base deck of its class and run through the real entry point with its un-injected control; TraceFault.tla: "
+         "control converts, injected run ends in a diagnostic raised by the repo, never finished, never an incidental error."),
+   technique='fault classes as actions of a TLA+ spec (Faults.tla) enumerated exhaustively by TLC; outcomes of the real entry point validated by TLC (TraceFault.tla)'),
  'C10': dict(cat='model_checking', ref='6/C10',
    text=("GenMat.tla enumerates material cards (Z=1..118, mass numbers 000/001/typical/three digits, repeated nuclides, "
          "library suffixes, keyword entries, fractions of one sign or mixed, several spellings) and cell densities of both "
